@@ -21,12 +21,13 @@ CHECKS = {
     "C07": dict(
         text="Theorem decode_encode: for every type tree and every value in the domain wt (all widths and bounds, all Unicode scalar "
              "strings, nested containers, every variant alternative, UUID/Offset leaves consistent with the node lookup), decode (encode v "
-             "++ rest) = (v, rest); encode_total; UTF-8 layer proved bijective. Correspondence + direct round-trip oracle on random "
+             "++ rest) = (v, rest); encode_total; UTF-8 layer proved bijective; float32: for every double binary32 can hold the codec returns "
+             "its binary32 rounding (round-to-nearest-even, subnormals, NaN quieting), otherwise OverflowError; rounding is a projection. "
+             "Correspondence + direct round-trip oracle on random "
              "types/values incl. sentinel-embedding for exact consumption and identity of resolved nodes.",
         design="5 C07", technique="Coq proof (nested induction over type trees) + differential correspondence of extracted codec",
-        note="Partial where CPython converts: float32 rounding is modelled (Float32.v) and compared bit for bit on every case but the "
-             "theorem covers binary32-representable inputs; str.encode/struct are CPython's. Set elements/mapping keys of unhashable "
-             "types cannot exist in Python and are outside the domain."),
+        note="str.encode/struct.pack are CPython's: the UTF-8 and binary32 rounding models are compared with them bit for bit on every case. "
+             "Set elements/mapping keys of unhashable types cannot exist in Python and are outside the domain."),
     "C08": dict(
         text="The Coq encoder is the format written from AuxData.md/AuxData.hpp; 15 clause-by-clause characterisation theorems; "
              "codec_table_conforms proves the table introspected from the working tree (regenerated each run) equals the format's. "
